@@ -2,6 +2,7 @@
    Only statements closed by `exact <lemma>` and their Print Assumptions. *)
 From TL Require Import Lib.Base Lib.GenTypes Model.SrpTypes Gen.SrpGen Model.SrpSpec Model.Srp
      Proofs.SrpBase Proofs.SrpEval Proofs.SrpCount Proofs.SrpMain Proofs.SrpCor Proofs.SrpParse.
+From TL Require Import Gen.SrpCliGen Model.SrpCliSpec Model.SrpCli Proofs.SrpCliP.
 
 (* 1. For every quirk vector whose flags are off, every configuration and every admissible file of any of the
       four languages (any number of classes / structs + impl blocks, members of every kind, nested classes,
@@ -138,6 +139,49 @@ Theorem C16_defaults_agree :
 Proof. exact defaults_agree. Qed.
 Print Assumptions C16_defaults_agree.
 
+(* 10. `thailint srp --max-methods N --max-loc M`.  The override as generated from the command's source
+      (click option -> srp() -> _execute_srp_lint -> _apply_srp_config_override -> set_config_value; section name, keys,
+      the guard of the early return) is the documented one for every configuration and every combination of options, so a
+      run with options reports exactly what the specification demands under the overridden configuration. *)
+Theorem C16_cli_override_is_documented : forall omm oml c, cli_override omm oml c = spec_cli omm oml c.
+Proof. exact cli_override_spec. Qed.
+Print Assumptions C16_cli_override_is_documented.
+
+Theorem C16_cli_report_exact : forall q omm oml c f,
+  flags_off q -> file_good f = true -> report q (cli_override omm oml c) f = spec_report (spec_cli omm oml c) f.
+Proof. exact cli_report_exact. Qed.
+Print Assumptions C16_cli_report_exact.
+
+Theorem C16_cli_report_exact_per_flag : forall q omm oml c f,
+  file_good f = true -> quirks_ok q f = true -> report q (cli_override omm oml c) f = spec_report (spec_cli omm oml c) f.
+Proof. exact cli_report_exact_per_flag. Qed.
+Print Assumptions C16_cli_report_exact_per_flag.
+
+(* 10'. What the documented override means: a given option IS the limit in force for every file whose language has no
+      section of its own in the configuration file, whatever the file's top-level key said; an option that is not given
+      leaves that limit alone; keyword settings and the enabled switch are never touched; admissible options keep the
+      configuration admissible.  (Which of the two wins when the file's own language has a section is property C05's subject.) *)
+Theorem C16_cli_limit_in_force : forall c l n,
+  sec_sub (lang_key l) (spec_section c) = None ->
+  (forall oml, spec_mm (spec_section (spec_cli (Some n) oml c)) l = n)
+  /\ (forall omm, spec_ml (spec_section (spec_cli omm (Some n) c)) l = n).
+Proof. intros c l n H. split; intros o; [now apply cli_limit_mm | now apply cli_limit_ml]. Qed.
+Print Assumptions C16_cli_limit_in_force.
+
+Theorem C16_cli_absent_option_changes_nothing : forall c l,
+  (forall oml, spec_mm (spec_section (spec_cli None oml c)) l = spec_mm (spec_section c) l)
+  /\ (forall omm, spec_ml (spec_section (spec_cli omm None c)) l = spec_ml (spec_section c) l)
+  /\ (forall omm oml, spec_check (spec_section (spec_cli omm oml c)) = spec_check (spec_section c)
+                      /\ spec_enabled (spec_section (spec_cli omm oml c)) = spec_enabled (spec_section c)
+                      /\ spec_keywords (spec_section (spec_cli omm oml c)) = spec_keywords (spec_section c)).
+Proof. intros c l. split; [|split]; intros; [apply cli_absent_mm | apply cli_absent_ml | apply cli_other_settings]. Qed.
+Print Assumptions C16_cli_absent_option_changes_nothing.
+
+Theorem C16_cli_config_stays_admissible : forall omm oml c,
+  config_good c = true -> cli_good omm oml = true -> config_good (spec_cli omm oml c) = true.
+Proof. exact cli_config_good. Qed.
+Print Assumptions C16_cli_config_stays_admissible.
+
 (* non-vacuity: admissible files with classes on both sides of a limit, a per-language override in force *)
 Definition ex_py : sfile :=
   Build_sfile Py ".py"
@@ -153,4 +197,15 @@ Example C16_nonvacuous :
   /\ spec_report ex_cfg ex_py = [(1, 0, "Class 'UserManager' may violate SRP: 2 methods (max: 1), responsibility keyword in name")]
   /\ spec_report [("srp", [("max_methods", VNat 2); ("max_loc", VNat 3); ("check_keywords", VBool false)])] ex_py
      = [(1, 0, "Class 'UserManager' may violate SRP: 4 lines (max: 3)")].
+Proof. vm_compute. repeat split; reflexivity. Qed.
+
+(* the command-line options on the same file: --max-methods 2 silences the method criterion that the file's top-level key
+   (max_methods: 1) raises, --max-loc 3 adds the line criterion; a configuration file without an srp section gets one *)
+Definition ex_cfg_cli : config := [("srp", [("max_methods", VNat 1); ("check_keywords", VBool false)])].
+Example C16_cli_nonvacuous :
+  config_good ex_cfg_cli = true /\ cli_good (Some 2) (Some 3) = true
+  /\ spec_report ex_cfg_cli ex_py = [(1, 0, "Class 'UserManager' may violate SRP: 2 methods (max: 1)")]
+  /\ report ideal (cli_override (Some 2) None ex_cfg_cli) ex_py = []
+  /\ report ideal (cli_override (Some 2) (Some 3) ex_cfg_cli) ex_py = [(1, 0, "Class 'UserManager' may violate SRP: 4 lines (max: 3)")]
+  /\ cli_override None (Some 3) [] = [("srp", [("max_loc", VNat 3)])].
 Proof. vm_compute. repeat split; reflexivity. Qed.
